@@ -2,6 +2,7 @@ import Driver.Common
 import Driver.Hash
 import Driver.Box
 import Driver.Stream
+import Driver.Curve
 /-
 Line-protocol driver.  One request per line:  `<id> <op> <arg>…` (byte strings
 in hex, `-` = empty).  One answer per line: `<id>\t<model answer>\t<spec answer>`
@@ -17,6 +18,9 @@ def handle (op : String) (args : List String) : Ans :=
   | some a => a
   | none =>
   match Stream.handle op args with
+  | some a => a
+  | none =>
+  match Curve.handle op args with
   | some a => a
   | none => ("bad-op", "bad-op")
 
